@@ -38,8 +38,9 @@ Theorem C12_history_full_partial :
 Proof. exact history_full_partial_c. Qed.
 Print Assumptions C12_history_full_partial.
 
-(* well-sequenced in-range histories are accepted to the end (no escape through
-   "out of range"): the two theorems above are not vacuous *)
+(* well-sequenced in-range histories of calls ([wf_hist]: no replies of the terminal among them,
+   see [wf_hist_r] below for those) are accepted to the end (no escape through "out of range"):
+   the two theorems above are not vacuous *)
 Theorem C12_history_accepted_nokp :
   forall colon rgb8 cshape ops t s,
     start_ok colon rgb8 cshape t s -> wf_hist false ops ->
@@ -53,6 +54,60 @@ Theorem C12_history_accepted_full_partial :
     hist_check true colon rgb8 cshape init_ms 0 t s ops = MOk (length ops).
 Proof. exact history_accepted_full_partial_c. Qed.
 Print Assumptions C12_history_accepted_full_partial.
+
+(* the toplevel on a terminal that ANSWERS THE START-UP PROBES.  The replies are input, not calls:
+   [OReport mode value] = a DECRPM reply is read (on_modereport), [ODecscusr value] = the DECRQSS
+   reply for the cursor shape is read.  Report operations anywhere in a history model a terminal
+   that answers any subset of the start-up queries after any delay (measured in reads): [pre] are
+   replies read before setupterm, and [ops] is ANY list of operations -- application calls with
+   further replies interleaved anywhere, also after the application has set the control the reply
+   is about.  That is the situation of the fix "stale probe replies": setupterm hides the cursor,
+   then the reply "cursor visible" is read; the shadow must stay 0, getctl must read 0, teardown
+   must write CSI ?25h.  The checker judges a reply operation itself too: it must be silent
+   (why = 8 otherwise); an untruthful reply (not the state at the time of the query, see
+   [check_op_v]) is out of range *)
+Theorem C12_toplevel_reports_nokp :
+  forall colon rgb8 cshape alt pre ops t s,
+    start_ok colon rgb8 cshape t s -> Forall (fun o => is_report o = true) pre ->
+    forall i w, hist_check false colon rgb8 cshape init_ms 0 t s (pre ++ OSetup alt :: ops) <> MBadAt i w.
+Proof. exact toplevel_reports_nokp_c. Qed.
+Print Assumptions C12_toplevel_reports_nokp.
+
+(* ... and such histories are accepted to the end when the replies are truthful: [wf_hist_r blink0
+   shape0 bset sset stopped ops] = well-sequenced, in range, and every reply tells the state at the
+   time of the query -- DECRPM 25 says "visible", DECRPM 12 / DECSCUSR say the terminal's blink state
+   [blink0] / shape [shape0] at the start unless the application has set the control since ([bset] /
+   [sset]; then the reply is stale and only has to be well-formed).  So the theorem above is not
+   vacuous on histories with replies before AND after the controls are set *)
+Theorem C12_history_reports_accepted_nokp :
+  forall colon rgb8 cshape ops t s,
+    start_ok colon rgb8 cshape t s ->
+    wf_hist_r (md_blink (v_md (os_vt s))) (md_shape (v_md (os_vt s))) false false false ops ->
+    hist_check false colon rgb8 cshape init_ms 0 t s ops = MOk (length ops).
+Proof. exact history_reports_accepted_nokp_c. Qed.
+Print Assumptions C12_history_reports_accepted_nokp.
+
+Theorem C12_history_reports_accepted_full_partial :
+  forall colon rgb8 cshape ops t s,
+    start_ok colon rgb8 cshape t s ->
+    wf_hist_r (md_blink (v_md (os_vt s))) (md_shape (v_md (os_vt s))) false false false ops ->
+    sets_keypad_on ops = false ->
+    hist_check true colon rgb8 cshape init_ms 0 t s ops = MOk (length ops).
+Proof. exact history_reports_accepted_full_partial_c. Qed.
+Print Assumptions C12_history_reports_accepted_full_partial.
+
+(* token level: replies, setupterm, the application's calls with further replies among them,
+   tickit_destroy: the terminal is left in its initial modes (keypad aside), default rendition *)
+Theorem C12_toplevel_reports_balanced_nokp :
+  forall colon rgb8 cshape alt pre app t s,
+    start_ok colon rgb8 cshape t s ->
+    wf_hist_r (md_blink (v_md (os_vt s))) (md_shape (v_md (os_vt s))) false false false
+              (pre ++ toplevel_ops alt app) ->
+    exists t' ts, mode_run t (pre ++ toplevel_ops alt app) = Some (t', ts) /\
+      ms_eqb_nokp (ms_of_vt (vt_run ts (os_vt s))) init_ms = true /\
+      v_sgr (vt_run ts (os_vt s)) = default_attrs.
+Proof. exact toplevel_reports_balanced_nokp_c. Qed.
+Print Assumptions C12_toplevel_reports_balanced_nokp.
 
 (* the full property is false: teardown leaves the keypad in application mode ... *)
 Theorem C12_history_refuted :
@@ -120,3 +175,18 @@ Example C12_nonvacuous :
      OPause; OResume; OTeardown] = MOk 5.
 Proof. split; [exact fresh_start_ok | split; [exact probed_start_ok | vm_compute; reflexivity]]. Qed.
 Print Assumptions C12_nonvacuous.
+
+(* the scenario of the fix is really judged and passes to the end: setupterm, then the late replies
+   "cursor visible", "not blinking", DECSCUSR 0 (all truthful for a fresh terminal: power-on state),
+   a read of the cursor visibility (must be 0), a pause / resume cycle, teardown; and the usual
+   order (replies first) with the blink and shape controls set afterwards *)
+Example C12_reports_nonvacuous :
+  wf_hist_r false 0 false false false
+    [OSetup true; OReport 25 1; OReport 12 2; ODecscusr 0; OGet CtlCursorvis; OPause; OResume; OTeardown] /\
+  hist_check false false false false init_ms 0 fresh_term fresh_ostate
+    [OSetup true; OReport 25 1; OReport 12 2; ODecscusr 0; OGet CtlCursorvis; OPause; OResume; OTeardown] = MOk 8 /\
+  hist_check false false false false init_ms 0 fresh_term fresh_ostate
+    [OReport 69 2; OReport 25 1; OReport 12 2; ODecscusr 0; OSetup true; OSet CtlCursorblink 1;
+     OSet CtlCursorshape 2; OGet CtlCursorshape; OPause; OResume; OTeardown; ODestroy] = MOk 12.
+Proof. split; [exact late_replies_wf | split; vm_compute; reflexivity]. Qed.
+Print Assumptions C12_reports_nonvacuous.
